@@ -87,7 +87,7 @@ inline uint32_t sum_32(const unsigned char *p, size_t n, uint32_t init) { for (s
 struct Config {
     size_t size; uint32_t place; int cs;        // cs 0 default (trivial 16 bit) 1 crc16 (init 0xffff) 2 sum32 (init 0x12345678)
     long aux;                                   // -1: none; otherwise the aux buffer size (0 allowed)
-    int order;                                  // 0: place, then sum  1: sum, then place
+    int order;                                  // 0: place, then sum  1: sum, then place  2: first configured with the checksum of the other width (other algorithm, all-ones initial value), then placed, then re-configured
     size_t cssize() const { return cs == 2 ? 4 : 2; }
     uint32_t data_addr() const { return place + (uint32_t)cssize(); }
 };
@@ -106,7 +106,9 @@ struct Instance {
         memset(&st, 0, sizeof st);
         persistent_init(&st, c.size, med_read, med_write);
         auto sum = [&]() { if (c.cs == 1) persistent_sum16(&st, sum_crc16, 0xffff); else if (c.cs == 2) persistent_sum32(&st, sum_32, 0x12345678u); };
-        if (c.order == 0) { persistent_place(&st, c.place); sum(); } else { sum(); persistent_place(&st, c.place); }
+        if (c.order == 2 && c.cs == 1) persistent_sum32(&st, sum_32, 0xffffffffu);
+        if (c.order == 2 && c.cs == 2) persistent_sum16(&st, sum_crc16, 0xffff);
+        if (c.order == 0 || c.order == 2) { persistent_place(&st, c.place); sum(); } else { sum(); persistent_place(&st, c.place); }
         if (c.aux >= 0) { aux = (uint8_t *)malloc(c.aux ? (size_t)c.aux : 1); persistent_buffer(&st, aux, (size_t)c.aux); }
         M().lo = c.place; M().hi = c.place + (uint32_t)c.cssize() + (uint32_t)c.size;
     }
